@@ -1,6 +1,6 @@
 (* Tables/FibTree.v — the name-tree FIB model refines the flat specification (C05), and holds exactly the nodes its
    live entries require (table part of C08). *)
-From Tables Require Import ModelAssoc ModelFib Assoc Lpm.
+From Tables Require Import ModelAssoc ModelTree ModelFib Assoc Tree Lpm.
 From Coq Require Import Lia.
 Local Open Scope nat_scope.
 
@@ -77,134 +77,6 @@ Qed.
 Lemma shrinking_empty : forall o, growing o = false -> op_ent empty_ent o = empty_ent.
 Proof. intros o H. destruct o; try discriminate; reflexivity. Qed.
 
-(* ---------- descend ---------- *)
-Lemma app_snoc_firstn : forall (pre : name) c r i, (pre ++ [c]) ++ firstn i r = pre ++ firstn (S i) (c :: r).
-Proof. intros. rewrite <- app_assoc. reflexivity. Qed.
-
-Lemma descend_spec : forall (t : amap fent) rest pre,
-  exists j, j <= length rest /\ descend t pre rest = pre ++ firstn j rest /\
-            (forall i, 0 < i <= j -> mem t (pre ++ firstn i rest) = true) /\
-            (j < length rest -> get t (pre ++ firstn (S j) rest) = None).
-Proof.
-  intros t. induction rest as [|c r IH]; intro pre.
-  - exists 0. split; [simpl; lia|]. split; [simpl; rewrite app_nil_r; reflexivity|]. split; [intros; lia | simpl; lia].
-  - simpl descend. destruct (get t (pre ++ [c])) eqn:E.
-    + destruct (IH (pre ++ [c])) as [j [Hj [Hd [Hm Hn]]]]. exists (S j). split; [simpl; lia|].
-      split; [rewrite Hd; apply app_snoc_firstn|]. split.
-      * intros i Hi. destruct i as [|i]; [lia|]. rewrite <- app_snoc_firstn. destruct i as [|i].
-        -- simpl. rewrite app_nil_r. apply mem_get. congruence.
-        -- apply Hm. lia.
-      * intro Hlt. rewrite <- app_snoc_firstn. apply Hn. simpl in Hlt. lia.
-    + exists 0. split; [simpl; lia|]. split; [simpl; rewrite app_nil_r; reflexivity|]. split; [intros; lia|].
-      intros _. simpl. exact E.
-Qed.
-
-Definition closed (t : amap fent) : Prop := forall p k, mem t p = true -> mem t (firstn k p) = true.
-
-Lemma lpm_node_spec : forall t n, closed t ->
-  exists kd, kd <= length n /\ lpm_node t n = firstn kd n /\
-             (forall i, 0 < i <= kd -> mem t (firstn i n) = true) /\
-             (forall i, kd < i -> i <= length n -> get t (firstn i n) = None).
-Proof.
-  intros t n Hc. unfold lpm_node. destruct (descend_spec t n []) as [j [Hj [Hd [Hm Hn]]]]. simpl in *.
-  exists j. split; [exact Hj|]. split; [exact Hd|]. split; [exact Hm|].
-  intros i Hi Hi2. destruct (get t (firstn i n)) eqn:E; [|reflexivity]. exfalso.
-  assert (Hmem : mem t (firstn i n) = true) by (apply mem_get; congruence).
-  apply (Hc _ (S j)) in Hmem. rewrite firstn_firstn_le in Hmem by lia.
-  apply mem_get in Hmem. apply Hmem. apply Hn. lia.
-Qed.
-
-(* ---------- fill ---------- *)
-Lemma add_chain_get : forall rest (t : amap fent) pre p e,
-  get (add_chain t pre rest) p = Some e ->
-  get t p = Some e \/ (e = empty_ent /\ exists i, 0 < i <= length rest /\ p = pre ++ firstn i rest).
-Proof.
-  induction rest as [|c r IH]; intros t pre p e H; simpl in H; [left; exact H|].
-  apply IH in H. destruct H as [H|[He [i [Hi Hp]]]].
-  - rewrite get_set in H. destruct (name_eqb (pre ++ [c]) p) eqn:E.
-    + apply name_eqb_eq in E. right. split; [congruence|]. exists 1. split; [simpl; lia|]. simpl. symmetry. exact E.
-    + left. exact H.
-  - right. split; [exact He|]. exists (S i). split; [simpl; lia|]. rewrite Hp. apply app_snoc_firstn.
-Qed.
-
-Lemma mem_set_mono : forall (t : amap fent) k v p, mem t p = true -> mem (set t k v) p = true.
-Proof. intros t k v p H. apply mem_get. rewrite get_set. destruct (name_eqb k p); [discriminate | apply mem_get; exact H]. Qed.
-
-Lemma add_chain_mono : forall rest (t : amap fent) pre p, mem t p = true -> mem (add_chain t pre rest) p = true.
-Proof. induction rest as [|c r IH]; intros t pre p H; simpl; [exact H|]. apply IH. apply mem_set_mono. exact H. Qed.
-
-Lemma add_chain_mem : forall rest (t : amap fent) pre i, 0 < i <= length rest -> mem (add_chain t pre rest) (pre ++ firstn i rest) = true.
-Proof.
-  induction rest as [|c r IH]; intros t pre i Hi; simpl in Hi; [lia|]. simpl add_chain.
-  destruct i as [|i]; [lia|]. rewrite <- app_snoc_firstn. destruct i as [|i].
-  - simpl. rewrite app_nil_r. apply add_chain_mono. apply mem_get. rewrite get_set_same. discriminate.
-  - apply IH. lia.
-Qed.
-
-Lemma add_chain_nodup : forall rest (t : amap fent) pre, NoDup (keys t) -> NoDup (keys (add_chain t pre rest)).
-Proof. induction rest as [|c r IH]; intros t pre H; simpl; [exact H|]. apply IH. apply NoDup_keys_set. exact H. Qed.
-
-Lemma firstn_add_skipn : forall (a b : nat) (l : name), firstn a l ++ firstn b (skipn a l) = firstn (a + b) l.
-Proof.
-  induction a as [|a IH]; intros b l; simpl; [reflexivity|].
-  destruct l as [|x l]; simpl; [rewrite firstn_nil; reflexivity|]. f_equal. apply IH.
-Qed.
-
-Lemma length_firstn_le : forall (k : nat) (n : name), k <= length n -> length (firstn k n) = k.
-Proof. intros. rewrite firstn_length. lia. Qed.
-
-Lemma prefix_is_firstn : forall p n, is_prefix p n = true -> p = firstn (length p) n /\ length p <= length n.
-Proof. intros p n H. split; [apply is_prefix_eq_firstn; exact H | apply is_prefix_length; exact H]. Qed.
-
-Section Fill.
-  Variables (t : amap fent) (n : name).
-  Hypothesis Hc : closed t.
-  Hypothesis Hroot : mem t [] = true.
-
-  Lemma fill_get : forall p e, get (fill t n) p = Some e ->
-    get t p = Some e \/ (e = empty_ent /\ get t p = None /\ is_prefix p n = true).
-  Proof.
-    intros p e H. unfold fill in H. destruct (lpm_node_spec t n Hc) as [kd [Hkd [Hd [Hm Hn]]]].
-    rewrite Hd in H. rewrite length_firstn_le in H by exact Hkd.
-    apply add_chain_get in H. destruct H as [H|[He [i [Hi Hp]]]]; [left; exact H|].
-    rewrite firstn_add_skipn in Hp. rewrite skipn_length in Hi. right. split; [exact He|]. subst p.
-    split; [apply Hn; lia | apply is_prefix_firstn_self].
-  Qed.
-
-  Lemma fill_mem : forall p, mem (fill t n) p = true <-> (mem t p = true \/ is_prefix p n = true).
-  Proof.
-    intros p. destruct (lpm_node_spec t n Hc) as [kd [Hkd [Hd [Hm Hn]]]]. split.
-    - intro H. apply mem_get in H. destruct (get (fill t n) p) as [e|] eqn:E; [|congruence].
-      apply fill_get in E. destruct E as [E|[_ [_ E]]]; [left; apply mem_get; congruence | right; exact E].
-    - unfold fill. rewrite Hd. rewrite length_firstn_le by exact Hkd. intros [H|H]; [apply add_chain_mono; exact H|].
-      apply prefix_is_firstn in H. destruct H as [Hp Hl]. destruct (le_lt_dec (length p) kd) as [Hle|Hgt].
-      + apply add_chain_mono. rewrite Hp. destruct (length p) as [|j] eqn:El; [simpl; exact Hroot | apply Hm; lia].
-      + rewrite Hp. replace (length p) with (kd + (length p - kd)) by lia. rewrite <- firstn_add_skipn.
-        apply add_chain_mem. rewrite skipn_length. lia.
-  Qed.
-
-  Lemma fill_nodup : NoDup (keys t) -> NoDup (keys (fill t n)).
-  Proof. intro H. unfold fill. apply add_chain_nodup. exact H. Qed.
-End Fill.
-
-Lemma mem_del : forall (A : Type) (t : amap A) n p, mem (del t n) p = if name_eqb n p then false else mem t p.
-Proof. intros. unfold mem. rewrite get_del. destruct (name_eqb n p); reflexivity. Qed.
-
-Lemma mem_set : forall (A : Type) (t : amap A) n v p, mem (set t n v) p = if name_eqb n p then true else mem t p.
-Proof. intros. unfold mem. rewrite get_set. destruct (name_eqb n p); reflexivity. Qed.
-
-(* ---------- children ---------- *)
-Lemma has_child_true : forall (t : amap fent) p,
-  has_child t p = true <-> exists c, mem t c = true /\ length c = S (length p) /\ is_prefix p c = true.
-Proof.
-  intros t p. unfold has_child. rewrite existsb_exists. split.
-  - intros [[k v] [Hin H]]. unfold is_child_of in H. simpl in H. apply andb_true_iff in H. destruct H as [H1 H2].
-    apply Nat.eqb_eq in H1. exists k. split; [|split; assumption].
-    apply mem_get. intro Hn. apply get_None_notin in Hn. apply Hn. apply (in_map fst) in Hin. exact Hin.
-  - intros [c [Hm [Hl Hp]]]. apply mem_get in Hm. destruct (get t c) as [v|] eqn:E; [|congruence].
-    exists (c, v). split; [apply get_In; exact E|]. unfold is_child_of. simpl. rewrite Hp, Hl, Nat.eqb_refl. reflexivity.
-Qed.
-
 (* ---------- prune ---------- *)
 (* Loop invariant of pruneIfEmpty: the node set is the closure of the live names plus possibly the prefixes of n of
    length 1..k; when the loop stops every remaining node is in the closure. *)
@@ -212,60 +84,20 @@ Lemma prune_at_spec : forall k (t : amap fent) n s,
   k <= length n -> NoDup (keys t) ->
   (forall p, mem t p = true <-> (inC s p \/ exists j, 0 < j <= k /\ p = firstn j n)) ->
   (forall p e, get t p = Some e -> e = sget s p) ->
-  NoDup (keys (prune_at t n k)) /\
-  (forall p, mem (prune_at t n k) p = true <-> inC s p) /\
-  (forall p e, get (prune_at t n k) p = Some e -> e = sget s p).
+  NoDup (keys (prune_at ent_empty t n k)) /\
+  (forall p, mem (prune_at ent_empty t n k) p = true <-> inC s p) /\
+  (forall p e, get (prune_at ent_empty t n k) p = Some e -> e = sget s p).
 Proof.
-  induction k as [|k IH]; intros t n s Hk ND Hmem Hent.
-  - simpl. split; [exact ND|]. split; [|exact Hent]. intro p. rewrite Hmem. split; [intros [H|[j [Hj _]]]; [exact H | lia] | intro H; left; exact H].
-  - cbn [prune_at]. set (p0 := firstn (S k) n).
-    assert (Hlen0 : length p0 = S k) by (apply length_firstn_le; exact Hk).
-    assert (Hin0 : mem t p0 = true) by (apply Hmem; right; exists (S k); split; [lia | reflexivity]).
-    destruct (get t p0) as [e|] eqn:E; [|apply mem_get in Hin0; congruence].
-    assert (He : e = sget s p0) by (apply Hent; exact E).
-    (* if p0 stays, it is in the closure *)
-    assert (Hstay : (has_child t p0 = true \/ ent_empty e = false) -> forall p, mem t p = true <-> inC s p).
-    { intros Hor p. rewrite Hmem. split; [|intro H; left; exact H]. intros [H|[j [Hj Hp]]]; [exact H|].
-      assert (HinC : inC s p0).
-      { destruct Hor as [Hch|Hne].
-        - apply has_child_true in Hch. destruct Hch as [c [Hc1 [Hc2 Hc3]]]. apply Hmem in Hc1.
-          destruct Hc1 as [[->|[w [Hw1 Hw2]]]|[j' [Hj' Hc']]].
-          + simpl in Hc2. lia.
-          + right. exists w. split; [eapply is_prefix_trans; eassumption | exact Hw2].
-          + exfalso. rewrite Hc' in Hc2. rewrite firstn_length in Hc2. lia.
-        - apply inC_live. unfold live. rewrite <- He. exact Hne. }
-      subst p. replace (firstn j n) with (firstn j p0) by (unfold p0; apply firstn_firstn_le; lia).
-      apply inC_prefix. exact HinC. }
-    destruct (has_child t p0) eqn:Hch; simpl.
-    { split; [exact ND|]. split; [apply Hstay; left; reflexivity | exact Hent]. }
-    destruct (ent_empty e) eqn:Hemp.
-    2:{ split; [exact ND|]. split; [apply Hstay; right; reflexivity | exact Hent]. }
-    (* p0 is an empty leaf: it is not in the closure, unlink it and continue *)
-    assert (Hnot : ~ inC s p0).
-    { intros [H0|[w [Hw1 Hw2]]]; [rewrite H0 in Hlen0; simpl in Hlen0; lia|].
-      assert (Hneq : w <> p0) by (intro; subst w; unfold live in Hw2; rewrite <- He in Hw2; congruence).
-      assert (Hlw : length p0 < length w).
-      { pose proof (is_prefix_length _ _ Hw1). destruct (Nat.eq_dec (length p0) (length w)) as [El|]; [|lia].
-        exfalso. apply Hneq. symmetry. apply is_prefix_antisym_len; assumption. }
-      assert (Hc : has_child t p0 = true).
-      { apply has_child_true. exists (firstn (S (length p0)) w). split; [|split].
-        - apply Hmem. left. apply inC_prefix. apply inC_live. exact Hw2.
-        - apply length_firstn_le. lia.
-        - apply is_prefix_firstn. rewrite firstn_firstn_le by lia.
-          apply is_prefix_firstn. exact Hw1. }
-      congruence. }
-    apply IH.
-    + lia.
-    + apply NoDup_keys_del. exact ND.
-    + intro p. rewrite mem_del.
-      destruct (name_eqb p0 p) eqn:Ep.
-      * apply name_eqb_eq in Ep. subst p. split; [congruence|]. intros [H|[j [Hj Hp]]]; [contradiction|].
-        exfalso. rewrite Hp in Hlen0. rewrite firstn_length in Hlen0. lia.
-      * apply name_eqb_neq in Ep. rewrite Hmem. split.
-        -- intros [H|[j [Hj Hp]]]; [left; exact H|]. right. exists j. split; [|exact Hp].
-           destruct (Nat.eq_dec j (S k)) as [->|]; [exfalso; apply Ep; symmetry; exact Hp | lia].
-        -- intros [H|[j [Hj Hp]]]; [left; exact H | right; exists j; split; [lia | exact Hp]].
-    + intros p e' H. rewrite get_del in H. destruct (name_eqb p0 p); [discriminate | apply Hent; exact H].
+  intros k t n s Hk ND Hmem Hent.
+  destruct (prune_at_gen ent_empty (inC s) k t n Hk ND) as [H1 [H2 H3]].
+  - intros p j H. apply inC_prefix. exact H.
+  - exact Hmem.
+  - intros p e H He. apply inC_live. unfold live. rewrite <- (Hent p e H). exact He.
+  - intros p [H0|[w [Hw1 Hw2]]] Hp; [contradiction|]. exists w, (sget s w). split; [exact Hw1|]. split; [|exact Hw2].
+    assert (Hm : mem t w = true) by (apply Hmem; left; apply inC_live; exact Hw2).
+    apply mem_get in Hm. destruct (get t w) as [e|] eqn:E; [|congruence]. f_equal. apply Hent. exact E.
+  - split; [exact H1|]. split; [exact H2|]. intros p e H. rewrite H3 in H.
+    destruct (mem (prune_at ent_empty t n k) p); [apply Hent; exact H | discriminate].
 Qed.
 
 (* ---------- the refinement invariant ---------- *)
@@ -292,14 +124,6 @@ Qed.
 Lemma TInv_get : forall t s p, TInv t s -> match get (nodes t) p with Some e => e | None => empty_ent end = sget s p.
 Proof.
   intros t s p I. destruct (get (nodes t) p) eqn:E; [apply (ti_ent _ _ I); exact E | symmetry; eapply TInv_absent; eassumption].
-Qed.
-
-Lemma find_exact_get : forall t n, closed t -> mem t [] = true -> find_exact t n = get t n.
-Proof.
-  intros t n Hc Hr. unfold find_exact. destruct (name_eqb (lpm_node t n) n) eqn:E; [reflexivity|].
-  apply name_eqb_neq in E. destruct (lpm_node_spec t n Hc) as [kd [Hkd [Hd [Hm Hn]]]].
-  destruct (Nat.eq_dec kd (length n)) as [->|Hne]; [exfalso; apply E; rewrite Hd; apply firstn_all|].
-  symmetry. rewrite <- (firstn_all n). apply Hn; lia.
 Qed.
 
 Lemma tree_init_inv : TInv tree_init spec_init.
@@ -338,7 +162,7 @@ Qed.
 (* structure part of a growing operation (Ins, SetS) *)
 Lemma grow_nodes : forall t s o, TInv t s -> growing o = true ->
   let n := op_name o in
-  let t1 := fill (nodes t) n in
+  let t1 := fib_fill (nodes t) n in
   let e := match get t1 n with Some e => e | None => empty_ent end in
   let t2 := set t1 n (op_ent e o) in
   NoDup (keys t2) /\ (forall p, mem t2 p = true <-> inC (spec_step s o) p) /\
@@ -348,16 +172,16 @@ Proof.
   pose proof (TInv_closed _ _ I) as Hc. pose proof (TInv_root _ _ I) as Hr.
   assert (He : e = sget s n).
   { unfold e. destruct (get t1 n) as [e0|] eqn:E.
-    - apply (fill_get _ _ Hc) in E. destruct E as [E|[E1 [E2 _]]]; [apply (ti_ent _ _ I); exact E|].
+    - apply (fill_get empty_ent _ _ Hc) in E. destruct E as [E|[E1 [E2 _]]]; [apply (ti_ent _ _ I); exact E|].
       rewrite E1. symmetry. eapply TInv_absent; eassumption.
-    - exfalso. assert (Hm : mem t1 n = true) by (apply (fill_mem _ _ Hc Hr); right; apply is_prefix_refl).
+    - exfalso. assert (Hm : mem t1 n = true) by (apply (fill_mem empty_ent _ _ Hc Hr); right; apply is_prefix_refl).
       apply mem_get in Hm. contradiction. }
   assert (Hlive : live (spec_step s o) n).
   { unfold live. rewrite sget_step. fold n. rewrite name_eqb_refl. apply growing_live. exact Hg. }
-  split; [apply NoDup_keys_set; apply fill_nodup; apply (ti_nodup _ _ I)|]. split; [|split; [|exact He]].
+  split; [apply NoDup_keys_set; apply (fill_nodup empty_ent); apply (ti_nodup _ _ I)|]. split; [|split; [|exact He]].
   - intro p. unfold t2. rewrite mem_set. destruct (name_eqb n p) eqn:Ep.
     + apply name_eqb_eq in Ep. subst p. split; [intros _; apply inC_live; exact Hlive | reflexivity].
-    + unfold t1. rewrite (fill_mem _ _ Hc Hr). rewrite (ti_nodes _ _ I). apply name_eqb_neq in Ep. split.
+    + unfold t1. rewrite (fill_mem empty_ent _ _ Hc Hr). rewrite (ti_nodes _ _ I). apply name_eqb_neq in Ep. split.
       * intros [[H|[w [H1 H2]]]|H]; [left; exact H | | right; exists n; split; [exact H | exact Hlive]].
         right. exists w. split; [exact H1|]. unfold live. rewrite sget_step. fold n.
         destruct (name_eqb n w) eqn:Ew; [apply growing_live; exact Hg | exact H2].
@@ -366,7 +190,7 @@ Proof.
         left. right. exists w. split; assumption.
   - intros p e' H. unfold t2 in H. rewrite get_set in H. rewrite sget_step. fold n. destruct (name_eqb n p) eqn:Ep.
     + inversion H. rewrite He. reflexivity.
-    + apply (fill_get _ _ Hc) in H. destruct H as [H|[E1 [E2 _]]]; [apply (ti_ent _ _ I); exact H|].
+    + apply (fill_get empty_ent _ _ Hc) in H. destruct H as [H|[E1 [E2 _]]]; [apply (ti_ent _ _ I); exact H|].
       rewrite E1. symmetry. eapply TInv_absent; eassumption.
 Qed.
 
@@ -374,11 +198,11 @@ Qed.
 Lemma shrink_nodes : forall t s o e, TInv t s -> growing o = false ->
   let n := op_name o in
   get (nodes t) n = Some e ->
-  let t2 := prune (set (nodes t) n (op_ent e o)) n in
+  let t2 := fib_prune (set (nodes t) n (op_ent e o)) n in
   NoDup (keys t2) /\ (forall p, mem t2 p = true <-> inC (spec_step s o) p) /\
   (forall p e', get t2 p = Some e' -> e' = sget (spec_step s o) p).
 Proof.
-  intros t s o e I Hg n E t2. unfold t2, prune.
+  intros t s o e I Hg n E t2. unfold t2, fib_prune, prune.
   assert (He : e = sget s n) by (apply (ti_ent _ _ I); exact E).
   apply prune_at_spec.
   - lia.
@@ -435,7 +259,7 @@ Proof.
   destruct o as [n f c|n|n f|n s'|n].
   - (* Ins *)
     destruct (grow_nodes t s (Ins n f c) I eq_refl) as [ND [Hm [He Hs]]]. simpl in ND, Hm, He, Hs. cbn [tree_step].
-    set (e := match get (fill (nodes t) n) n with Some e => e | None => empty_ent end) in *.
+    set (e := match get (fib_fill (nodes t) n) n with Some e => e | None => empty_ent end) in *.
     constructor; cbn [nodes pfx]; [exact ND | exact Hm | exact He | |].
     + destruct (has_face (nhs e) f); [apply (ti_pfx_nodup _ _ I) | apply NoDup_nadd; apply (ti_pfx_nodup _ _ I)].
     + apply (pfx_other s (Ins n f c) (pfx t)); [apply (ti_pfx _ _ I) | |]; cbn [op_name].
@@ -471,7 +295,7 @@ Proof.
     + eapply TInv_ext; [|exact I]. apply (shrink_absent t s (Rem n f) I eq_refl E).
   - (* SetS *)
     destruct (grow_nodes t s (SetS n s') I eq_refl) as [ND [Hm [He Hs]]]. simpl in ND, Hm, He, Hs. cbn [tree_step].
-    set (e := match get (fill (nodes t) n) n with Some e => e | None => empty_ent end) in *.
+    set (e := match get (fib_fill (nodes t) n) n with Some e => e | None => empty_ent end) in *.
     constructor; cbn [nodes pfx]; [exact ND | exact Hm | exact He | apply (ti_pfx_nodup _ _ I) |].
     apply (pfx_other s (SetS n s') (pfx t)); [apply (ti_pfx _ _ I) | reflexivity |]; cbn [op_name].
     rewrite (sget_step s (SetS n s') n); cbn [op_name op_ent]; rewrite name_eqb_refl. apply (ti_pfx _ _ I).
@@ -501,7 +325,7 @@ Proof.
   intros t s p I. unfold tsel_strat, sel_strat. rewrite <- (TInv_get _ _ p I). destruct (get (nodes t) p); reflexivity.
 Qed.
 
-Lemma tree_lookup_lpm : forall (A : Type) (tsel ssel : name -> option A) t n,
+Lemma tree_lookup_lpm : forall (A : Type) (tsel ssel : name -> option A) (t : amap fent) n,
   closed t ->
   (forall p, tsel p = ssel p) -> (forall p, get t p = None -> ssel p = None) ->
   let d := lpm_node t n in lpm tsel d (length d) = lpm ssel n (length n).
@@ -529,18 +353,6 @@ Proof.
 Qed.
 
 (* ---------- listings ---------- *)
-Lemma NoDup_map_fst_filter : forall (A : Type) (g : name * A -> bool) (t : amap A),
-  NoDup (keys t) -> NoDup (map fst (filter g t)).
-Proof.
-  intros A g. induction t as [|[k v] r IH]; intro ND; simpl; [constructor|].
-  inversion ND as [|? ? Hk ND']; subst. destruct (g (k, v)); simpl; [|apply IH; exact ND'].
-  constructor; [|apply IH; exact ND']. intro H. apply Hk. apply in_map_iff in H. destruct H as [[k' v'] [H1 H2]].
-  simpl in H1. subst k'. apply filter_In in H2. destruct H2 as [H2 _]. apply (in_map fst) in H2. exact H2.
-Qed.
-
-Lemma In_amap_get : forall (A : Type) (t : amap A) p v, NoDup (keys t) -> (In (p, v) t <-> get t p = Some v).
-Proof. intros A t p v ND. split; [apply In_get; exact ND | apply get_In]. Qed.
-
 Lemma live_get : forall t s p, TInv t s -> live s p -> get (nodes t) p = Some (sget s p).
 Proof.
   intros t s p I Hl. apply inC_live in Hl. apply (ti_nodes _ _ I) in Hl. apply mem_get in Hl.
